@@ -356,7 +356,7 @@ class MediaCombineDisallowed(Exception):
         return self.args[0]
 
     def _combinable(rule):
-        combinable = rule.COMMENT, rule.STYLE_RULE, rule.IMPORT_RULE
+        combinable = rule.COMMENT, rule.STYLE_RULE
         return rule.type in combinable
 
 
@@ -388,7 +388,8 @@ def _resolve_import(rule, target):
 
     # adjust relative URI references
     log.info('@import: Adjusting paths for %r' % rule.href, neverraise=True)
-    replaceUrls(importedSheet, Replacer(rule.href), ignoreImportRules=True)
+    replacer = Replacer(rule.href)
+    replaceUrls(importedSheet, replacer, ignoreImportRules=True)
 
     try:
         media_proxy = _check_media_proxy(rule, importedSheet)
@@ -403,6 +404,11 @@ def _resolve_import(rule, target):
 
     imp_target = media_proxy or target
     for r in importedSheet:
+        if r.type == r.IMPORT_RULE:
+            # an @import kept by the imported sheet: its target is relative
+            # to that sheet, too (set while detached, loaded when added)
+            r._parentStyleSheet = None
+            r.href = replacer(r.href)
         imp_target.add(r)
 
     if media_proxy:
